@@ -177,7 +177,8 @@ theorem LaunchSt.transport {P : Program} {s s' : St} {tk tk' : Task} (te : TaskE
 bookkeeping survives, and the wake-ups are complete: `run()` is woken when its predicate turns true; a launch loop whose
 node has become ready is woken or has an owner -/
 theorem TaskOK.transport {P : Program} {depth : Node → Nat} {s s' : St} {tk tk' : Task} (te : TaskExt s' tk tk')
-    (h : TaskOK P depth s tk) (hlen1 : s.tasks.length ≠ 1)
+    (h : TaskOK P depth s tk)
+    (hlen1 : s.tasks.length ≠ 1 ∨ (s'.tasks.length = 1 ∧ s'.proc = s.proc ∧ s'.evSet = s.evSet ∧ s'.sw = s.sw))
     (hres' : ∀ n v, s.res n = some v → s'.res n = some v) (hsw' : ∀ S lc, s.sw S = some lc → s'.sw S = some lc)
     (hproc' : ∀ n, s.proc n = true → s'.proc n = true) (hev' : ∀ n, s.evSet n = true → s'.evSet n = true)
     (hL : ∀ q, Launched P s q → Launched P s' q)
@@ -188,7 +189,11 @@ theorem TaskOK.transport {P : Program} {depth : Node → Nat} {s s' : St} {tk tk
     (hstore : ∀ d q pc, tk.frames = [.node d q false pc] → pc ≠ .start → pc ≠ .evWait → s.res q = none → s'.res q = none) :
     TaskOK P depth s' tk' := by
   cases h with
-  | callerStart hn hfr hst hlen => exact absurd hlen hlen1
+  | callerStart hn hfr hst hlen hp0 he0 hs0 =>
+    rcases hlen1 with h | ⟨h1, h2, h3, h4⟩
+    · exact absurd hlen h
+    · exact .callerStart tk' (by rw [te.name]; exact hn) (by rw [te.frames]; exact hfr) (te.runnable hst) h1
+        (by rw [h2]; exact hp0) (by rw [h3]; exact he0) (by rw [h4]; exact hs0)
   | callerWait hn hfr hst =>
     refine .callerWait tk' (by rw [te.name]; exact hn) (by rw [te.frames]; exact hfr) ?_
     rcases hst with ⟨rv, h⟩ | ⟨h, he0, hr0⟩
@@ -289,7 +294,7 @@ theorem Struct.close {P : Program} {depth : Node → Nat} {s s1 : St} {t : Nat} 
           rcases te.st with h | ⟨w, h1, h2, h3⟩
           · exact Or.inl h
           · exact Or.inr ⟨w, h1, h2, by cases w <;> exact h3⟩⟩
-        refine TaskOK.transport te' (hs.tasks i tk0 h0) hlen1 e.res e.sw e.proc e.ev hL ?_ ?_ ?_
+        refine TaskOK.transport te' (hs.tasks i tk0 h0) (Or.inl hlen1) e.res e.sw e.proc e.ev hL ?_ ?_ ?_
         · intro he0 hr0
           rcases hrun he0 hr0 with h | h
           · exact Or.inl h
